@@ -14,7 +14,7 @@ ENGINES = [
     {"name": "fault", "path": "vf/engines/fault.cc", "serves_properties": ["C12"],
      "kind_free_text": "fault enumeration: each generated history is re-executed once per intercepted system call (every call when few, sampled otherwise) with that call failing "
                        "(ENOSPC/EIO/EMFILE/ENOENT, one-shot, persistent or short write); marker-key oracle after close+reopen and after kill+reopen with the fault cleared"},
-    {"name": "conc", "path": "vf/engines/conc.cc", "serves_properties": ["C08", "C09", "C04"],
+    {"name": "conc", "path": "vf/engines/conc.cc", "serves_properties": ["C08", "C09", "C04", "C20"],
      "kind_free_text": "schedule exploration: generated multi-threaded programs on a deterministic baton scheduler (random, PCT, starved/eager extremes, bounded-exhaustive DFS with "
                        "preemption bound for tiny programs); linearizability search + register/cut-consistency oracles; deadlock and lost-wake-up detection"},
     {"name": "crash", "path": "vf/engines/crash.cc", "serves_properties": ["C02", "C03", "C05", "C17"],
@@ -121,7 +121,7 @@ CHECKS = {
                 technique="model-based stateful property testing with lifecycle operations (backup, copy, destroy, lock probes, refused opens)",
                 text="Generated histories with backup/copy/destroy/lock-probe/refused-open operations at arbitrary points; backups and copies are opened as independent databases and compared with the "
                      "model at the moment they were taken, again after later source writes, and written to without affecting the source; byte-level directory snapshots show that refused opens and "
-                     "copies modify nothing and that destroy leaves foreign files alone; the lock is probed from the same process and from a forked child. Backups concurrent with writer threads are not yet explored."),
+                     "copies modify nothing and that destroy leaves foreign files alone; the lock is probed from the same process and from a forked child. A third part runs backups concurrently with writer threads on the deterministic scheduler and judges each backup as a point in the batch order."),
     "C10": dict(engine="race", cat="exploration", ref="3/C10",
                 technique="generated concurrent workloads on real threads with delay injection; oracle = ThreadSanitizer / AddressSanitizer reports",
                 text="Generated programs of 3..5 (8) threads x 10..40 operations (writes, reads, held snapshots, per-thread iterators, flush, manual compaction, properties, approximate sizes, backup) "
